@@ -27,11 +27,11 @@ func EntriesFor(kind string) []string {
 	case "png":
 		return []string{"DecodePng", "ScanPngHeader", "Decode"}
 	case "cr3":
-		return []string{"Decode", "DecodeCR3", "PreviewCR3", "BMFF"}
+		return []string{"Decode", "DecodeCR3", "PreviewCR3", "BMFF", "BMFFRaw"}
 	case "heif":
-		return []string{"Decode", "DecodeHeif", "BMFF", "DecodeTiff"}
+		return []string{"Decode", "DecodeHeif", "BMFF", "BMFFRaw", "DecodeTiff"}
 	case "avif":
-		return []string{"Decode", "BMFF"}
+		return []string{"Decode", "BMFF", "BMFFRaw"}
 	case "xmp":
 		return []string{"ParseXmp"}
 	default:
@@ -42,7 +42,7 @@ func EntriesFor(kind string) []string {
 // AllEntries mirrors worker.Entries (kept here so that gen does not import the worker).
 var AllEntries = []string{
 	"Decode", "DecodeTiff", "DecodeJPEG", "DecodePng", "DecodeCR3", "DecodeCR2", "DecodeHeif", "PreviewCR3",
-	"ExifParse", "ScanJPEG", "ScanJPEGDrain", "ScanTiffHeader", "ScanPngHeader", "BMFF", "ParseXmp",
+	"ExifParse", "ScanJPEG", "ScanJPEGDrain", "ScanTiffHeader", "ScanPngHeader", "BMFF", "BMFFRaw", "ParseXmp",
 	"ItScan", "ItScanBuf", "ItReadAt", "ItBuf", "ItHelpers",
 }
 
